@@ -39,6 +39,10 @@ PROPS = {
                 technique="contracts on the real code: main() exceptional postconditions by pvc; document unchanged after a refused edit decided by run-time-checked postconditions over the enumerated edit space (labelled bounded)",
                 text="a refused edit raises KeyError/ValueError, leaves rebuild() unchanged, and later edits behave as on a fresh parse",
                 note="bounded; see DESIGN.md C08"),
+    "C14": dict(level="exploration", bounded="bounded.b_c14", trusted_base=TRUSTED_COMMON + ["independent CST reader (bounded/readers.py)"],
+                technique="contracts on the real code: representation invariant / dictionary-law obligations on the mapping dunders by pvc where reached; text/mapping agreement decided by run-time-checked postconditions over all short scripts of mapping operations (labelled bounded)",
+                text="after every step of every enumerated script: text tree == dict model == lookups; KeyError without side effects",
+                note="bounded; see DESIGN.md C14"),
     "C19": dict(level="exploration", bounded="bounded.b_c19", trusted_base=TRUSTED_COMMON,
                 technique="contracts on the real code: laws checked as run-time postconditions on alternative edit sequences over the enumerated document space (labelled bounded)",
                 text="idempotence, set/rm restoration, rm/set tree restoration and commutation hold on every enumerated document",
